@@ -83,6 +83,10 @@ class SymH:
         self.ctx.info[name]['first_quadrant'] = True
         return a
 
+    def random_stub(self, mode):
+        """'mean': noise sources return their mean; 'free': arbitrary values of the documented support (parameters pois_k, norm_k, uni_k)."""
+        symnp.random.reset(mode)
+
     def frac(self, a, b=1):
         return Fraction(a, b)    # always a Fraction: int/int in harness code must never become a float
 
